@@ -5,14 +5,6 @@ package ring
 // element of Z_{q_k}); the scalar kernels act through their C01-1 contracts; the vector kernels, SubRing and Ring
 // methods are interpreted from SSA.  A limb processed with another limb's modulus is reported as VERIF-MODULUS.
 
-func VerifSetup_Ring(n int, moduli []uint64) *Ring {
-	r, err := NewRing(n, moduli)
-	if err != nil {
-		panic(err)
-	}
-	return r
-}
-
 func vAtomPoly(r *Ring, name string, class int) Poly {
 	p := r.NewPoly()
 	for k, s := range r.SubRings[:r.level+1] {
